@@ -85,15 +85,49 @@ def gen_echo_spec(rng, n=None):
     return spec
 
 
+ID_FAMILIES = ["q", "int", "mixed", "unsorted-str", "unsorted-int", "digit-str"]
+
+
+def qubit_ids(spec):
+    """register labels of the atoms, in register order; spec["ids"] = list of ints / strings (JSON keeps the type),
+    default "q0", "q1", ...  (0 and "0" are DIFFERENT pulser ids)"""
+    return list(spec["ids"]) if spec.get("ids") is not None else [f"q{i}" for i in range(spec["n"])]
+
+
+def make_ids(family, n, rng):
+    if family == "int":          # pulser's default for Register.from_coordinates / square / rectangle without prefix
+        return list(range(n))
+    if family == "mixed":        # 0 and "0" side by side, ints and strings mixed
+        pool = [0, "0", 1, "1", "a", 7, "7"]
+        return pool[:n]
+    if family == "unsorted-str":
+        ids = ["d", "b", "e", "a", "c"][:n]
+        return ids
+    if family == "unsorted-int":
+        ids = [3, 0, 4, 1, 2][:n]
+        return ids
+    if family == "digit-str":    # strings that look like (other atoms') integer positions
+        return [str((i + 1) % n) for i in range(n)]
+    return None
+
+
+def with_ids(spec, family, rng):
+    out = json.loads(json.dumps(spec))
+    out["ids"] = make_ids(family, spec["n"], rng)
+    out["id_family"] = family
+    return out
+
+
 def build(spec):
     import pulser
     from pulser.waveforms import BlackmanWaveform, ConstantWaveform, RampWaveform
 
-    reg = pulser.Register({f"q{i}": tuple(p) for i, p in enumerate(spec["positions"])})
+    ids = qubit_ids(spec)
+    reg = pulser.Register({ids[i]: tuple(p) for i, p in enumerate(spec["positions"])})
     seq = pulser.Sequence(reg, pulser.MockDevice)
     seq.declare_channel("glob", "rydberg_global")
     if any(p["channel"] == "loc" for p in spec["pulses"]):
-        seq.declare_channel("loc", "rydberg_local", initial_target="q0")
+        seq.declare_channel("loc", "rydberg_local", initial_target=ids[0])
     for p in spec["pulses"]:
         d = p["duration"]
         if p["shape"] == "const":
@@ -104,7 +138,7 @@ def build(spec):
             amp = RampWaveform(d, 0.0, p["amp"])
         det = RampWaveform(d, p["det0"], p["det1"])
         if p["channel"] == "loc":
-            seq.target(f"q{p['target']}", "loc")
+            seq.target(ids[p["target"]], "loc")
         seq.add(pulser.Pulse(amp, det, p["phase"] % TWO_PI), p["channel"])
     return seq
 
@@ -147,7 +181,14 @@ def t_timerev(spec, rng):
     return out, {"kind": "timerev"}
 
 
-TRANSFORMS = {"rigid": t_rigid, "offset": t_offset, "negate": t_negate, "timerev": t_timerev}
+def t_ids(spec, rng):
+    """same layout and pulses, labels replaced by the plain "q<i>" strings: results must not depend on the label type"""
+    out = json.loads(json.dumps(spec))
+    out["ids"] = None
+    return out, {"kind": "ids", "from": spec.get("id_family", "q"), "ids": [repr(x) for x in qubit_ids(spec)]}
+
+
+TRANSFORMS = {"ids": t_ids, "rigid": t_rigid, "offset": t_offset, "negate": t_negate, "timerev": t_timerev}
 
 
 def transformed_sequence(spec, kind, rng):
@@ -214,10 +255,10 @@ def run_backend(backend, seq, with_state=True, interaction_matrix=None):
     return out
 
 
-def compare_runs(backend, a, b2, n, energy_sign=1.0):
+def compare_runs(backend, a, b2, n, energy_sign=1.0, same_ids=True):
     """-> (worst difference on occupations/correlations/probabilities, worst on energies, text or None)"""
     worst, worst_e, bad = 0.0, 0.0, []
-    if a["atom_order"] != b2["atom_order"]:
+    if same_ids and a["atom_order"] != b2["atom_order"]:
         bad.append(f"atom_order {a['atom_order']} vs {b2['atom_order']}")
     for k in a:
         if k.startswith(("occ@", "corr@")) or k == "prob":
@@ -258,8 +299,17 @@ def sd_relation(kind, info, d0, d1):
 
     tt = d0.target_times
     U0, U1 = d0.interaction_matrix(tt[0]), d1.interaction_matrix(tt[0])
-    if d0.target_times != d1.target_times or d0.qubit_ids != d1.qubit_ids:
-        return "target times or qubit ids differ"
+    if d0.target_times != d1.target_times or len(d0.qubit_ids) != len(d1.qubit_ids):
+        return "target times or number of qubits differ"
+    if kind == "roundtrip":
+        if [str(q) for q in d0.qubit_ids] != [str(q) for q in d1.qubit_ids]:
+            return "qubit ids differ (beyond int -> str) after the round trip"
+    elif kind != "ids" and d0.qubit_ids != d1.qubit_ids:
+        return "qubit ids differ"
+    if kind == "ids":
+        ok = torch.equal(d0.omega, d1.omega) and torch.equal(d0.delta, d1.delta) and torch.equal(d0.phi, d1.phi) \
+            and torch.equal(U0, U1)
+        return None if ok else "drives or U depend on the type of the qubit ids"
     if not (torch.equal(d0.omega, d1.omega) and torch.equal(d0.delta, -d1.delta if kind == "timerev" else d1.delta)):
         return "omega/delta differ"
     if kind == "rigid":
@@ -381,20 +431,28 @@ def metamorphic_case(ctx, spec, kind, backend, seed):
         M = (-d0.interaction_matrix(d0.target_times[0])).tolist()
     rel = sd_relation(kind, info, d0, sequence_data(seq1, backend, interaction_matrix=M))
     b2 = run_backend(backend, seq1, interaction_matrix=M)
-    worst, worst_e, text = compare_runs(backend, a, b2, spec["n"], energy_sign=-1.0 if kind == "timerev" else 1.0)
+    worst, worst_e, text = compare_runs(backend, a, b2, spec["n"], energy_sign=-1.0 if kind == "timerev" else 1.0,
+                                        same_ids=kind not in ("ids", "roundtrip"))
+    extra = []
+    if a["atom_order"] != qubit_ids(spec):
+        extra.append(f"atom_order {a['atom_order']!r} is not the register's {qubit_ids(spec)!r}")
+    if kind == "roundtrip" and [str(x) for x in a["atom_order"]] != [str(x) for x in b2["atom_order"]]:
+        extra.append(f"atom_order {a['atom_order']!r} vs {b2['atom_order']!r} after the round trip")
+    if extra:
+        text = "; ".join(extra + ([text] if text else []))
     return {"relation": rel, "worst": worst, "worst_energy": worst_e, "text": text, "info": info,
             "occ": a["occ@1.0"].tolist()}
 
 
 def judge(ctx, spec, kind, backend, seed, r):
     ctx.count_case({"kind": kind, "backend": backend, "n": spec["n"], "pulses": len(spec["pulses"]), "seed": seed,
-                    "family": spec.get("family", "random"), "phases": [p["phase"] for p in spec["pulses"]],
+                    "family": spec.get("family", "random"), "ids": [repr(x) for x in qubit_ids(spec)], "phases": [p["phase"] for p in spec["pulses"]],
                     "info": r["info"]}, nontrivial=max(r["occ"]) > 1e-2)
     if r["text"]:
         what = (f"emu-{backend}: {r['text']} (phases negated)" if kind == "negate" else
                 f"emu-{backend}: results change under '{kind}' ({r['info']}): {r['text']}")
         ctx.violation(what, {"spec": spec, "transform": kind, "backend": backend, "seed": seed,
-                             "finding_key": f"{kind}-{backend}"})
+                             "finding_key": "qubit-id-type-changes-result" if kind == "ids" else f"{kind}-{backend}"})
 
 
 def run(ctx):
@@ -438,10 +496,23 @@ def run(ctx):
     for spec, kind, backend, seed in corpus_cases():
         todo.append((spec, kind, backend, seed))
     bases = [gen_spec(ctx.rng) for _ in range(ctx.n(4, 36))] + [gen_echo_spec(ctx.rng) for _ in range(ctx.n(3, 16))]
-    for spec in bases:
-        for kind in ("rigid", "offset", "timerev", "negate", "roundtrip"):
+    fams = ["int", "mixed", "q", "unsorted-int", "digit-str", "unsorted-str", "int"]
+    id_hist = {}
+    for i, spec in enumerate(bases):
+        fam = fams[i % len(fams)]
+        spec = with_ids(spec, fam, ctx.rng)            # the base sequence itself carries the labels of its family
+        id_hist[fam] = id_hist.get(fam, 0) + 1
+        kinds = ["rigid", "offset", "timerev", "negate", "roundtrip"]
+        if fam == "mixed":
+            kinds.remove("roundtrip")                  # pulser refuses to serialise ids that collide as strings (0 and "0")
+        if fam != "q":
+            kinds.insert(0, "ids")                     # against the run with plain "q<i>" labels on the same layout
+        for kind in kinds:
             for backend in ("sv", "mps"):
+                if kind in ("timerev", "negate") and i % 2 == 1 and not ctx.thorough():
+                    continue                           # quick tier: keep the wall time
                 todo.append((spec, kind, backend, ctx.rng.randrange(10 ** 6)))
+    ctx.extra["qubit_id_families"] = id_hist
     for spec, kind, backend, seed in todo:
         try:
             r = metamorphic_case(ctx, spec, kind, backend, seed)
@@ -474,7 +545,9 @@ def run(ctx):
     ctx.rule = ("random pulser sequences on MockDevice (2-5 atoms at random planar positions >= 7.5 um apart, 2-4 pulses on a "
                 "global and optionally a local Rydberg channel, constant/Blackman/ramp amplitudes, ramped detunings, random "
                 "phases; plus echo/Ramsey base sequences whose pulse phases are exact multiples of pi/2 from {0, pi, -pi, pi/2, "
-                "2 pi}, at least two different and at least one pi per sequence) x {rigid motion with optional reflection, constant phase offset, negated phases, abstract-repr round "
+                "2 pi}, at least two different and at least one pi per sequence); register labels by family (pulser's default ints, "
+                "mixed int/str incl. 0 next to '0', unsorted strings / ints, digit strings, plain q<i>) x {same layout with q<i> "
+                "labels, rigid motion with optional reflection, constant phase offset, negated phases, abstract-repr round "
                 "trip} x {emu-sv, emu-mps}; plus random operator-level cases (40% with phase vectors made of exact multiples of pi); non-trivial = some occupation > 1e-2.")
     ctx.trusted_base += ["C06_H_apply_dense (emu-sv applies the dense Hamiltonian the theorems speak about); C05 for the MPO",
                          "pulser-core 1.9.1 for building, sampling and (de)serialising sequences"]
